@@ -62,6 +62,20 @@ def main():
     combos = [c for r in range(0, k + 1) for c in itertools.combinations(range(len(pool)), r)]
     if tier == "quick":
         combos = combos[::3]
+    # deltified pairs whose difference is a literal run of exactly 126..128, 254, 381 bytes (the 127-byte insert limit and its
+    # multiples) or a copy starting / sized at a multiple of 256 (zero operand bytes are omitted in copy commands)
+    import random as _r
+    _rnd = _r.Random(11)
+    _base = bytes(_rnd.randrange(128) for _ in range(1200))          # (bytes < 128; the replaced runs use bytes >= 128: no accidental matches)
+    pool.append(_base)
+    _bi = len(pool) - 1
+    for _ln in (126, 127, 128, 254, 381):
+        pool.append(_base[:500] + bytes(128 + (5 * j + 1) % 127 for j in range(_ln)) + _base[500 + _ln:])      # (a REPLACED run: whichever object becomes the delta base, the delta holds a literal of that length)
+        combos.append((_bi, len(pool) - 1))
+    pool.append(b"head" + _base[0x100:0x300] + b"tail")
+    combos.append((_bi, len(pool) - 1))
+    # the same object named twice (duplicated content): stored once, and the pack opens
+    combos += [(1, 1), (1, 1, 2), (4, 2, 4), (0, 0)]
     with tempfile.TemporaryDirectory() as d:
         for ci, combo in enumerate(combos):
             objs = [Blob.from_string(pool[i]) for i in combo]
